@@ -1122,6 +1122,7 @@ class NestedPipeFunc(PipeFunc):
         self.internal_shape = None  # not supported in NestedPipeFunc
         self.profiling_stats = None
         self.post_execution_hook = None
+        self.error_snapshot = None
         self.mapspec = self._combine_mapspecs() if mapspec is None else _maybe_mapspec(mapspec)
         for f in self.pipeline.functions:
             f.mapspec = None  # MapSpec is handled by the NestedPipeFunc
@@ -1241,6 +1242,7 @@ class _NestedFuncWrapper:
         # Custom output pickers of the inner multi-output functions
         self.output_pickers = output_pickers or {}
         self.__name__ = f"NestedPipeFunc_{'_'.join(at_least_tuple(output_name))}"
+        self.__qualname__ = self.__name__  # `ErrorSnapshot` prints the qualified name of the function
 
     def __call__(self, *args: Any, **kwds: Any) -> Any:
         result_dict = self.func(*args, **kwds)
